@@ -88,6 +88,10 @@ func init() {
 		"time.Sleep":                       func(fr *frame, a []value) (value, bool) { cur.sched.yieldToOthers(); return nil, true },
 		"(*sync.Mutex).Lock":               mMutexLock,
 		"(*sync.Mutex).Unlock":             mMutexUnlock,
+		"(*sync.RWMutex).Lock":             mMutexLock,
+		"(*sync.RWMutex).Unlock":           mMutexUnlock,
+		"(*sync.RWMutex).RLock":            mRLock,
+		"(*sync.RWMutex).RUnlock":          mRUnlock,
 		"(*sync.Once).Do":                  nil,
 	} {
 		if v == nil {
@@ -1050,8 +1054,8 @@ var mutexState = map[*value]int{} // reset per path via pathCtx
 func mMutexLock(fr *frame, args []value) (value, bool) {
 	p := args[0].(*value)
 	cur.sched.schedPoint()
-	if cur.locks[p] {
-		cur.sched.block(func() bool { return !cur.locks[p] }, "sync.Mutex.Lock")
+	if cur.locks[p] || cur.rlocks[p] > 0 {
+		cur.sched.block(func() bool { return !cur.locks[p] && cur.rlocks[p] == 0 }, "sync.Mutex.Lock")
 	}
 	cur.locks[p] = true
 	cur.sched.logLock(evLock, p)
@@ -1065,5 +1069,30 @@ func mMutexUnlock(fr *frame, args []value) (value, bool) {
 	}
 	cur.sched.logLock(evUnlock, p)
 	delete(cur.locks, p)
+	return nil, true
+}
+
+// readers-writer lock: readers exclude the writer only
+func mRLock(fr *frame, args []value) (value, bool) {
+	p := args[0].(*value)
+	cur.sched.schedPoint()
+	if cur.locks[p] {
+		cur.sched.block(func() bool { return !cur.locks[p] }, "sync.RWMutex.RLock")
+	}
+	if cur.rlocks == nil {
+		cur.rlocks = map[*value]int{}
+	}
+	cur.rlocks[p]++
+	cur.sched.logLock(evRLock, p)
+	return nil, true
+}
+
+func mRUnlock(fr *frame, args []value) (value, bool) {
+	p := args[0].(*value)
+	if cur.rlocks[p] == 0 {
+		panic(targetPanic{iface{t: types.Typ[types.String], v: "sync: RUnlock of unlocked RWMutex"}})
+	}
+	cur.sched.logLock(evRUnlock, p)
+	cur.rlocks[p]--
 	return nil, true
 }
